@@ -36,3 +36,26 @@ package s2
 //@   ensures [appended] len(e.indexCovering) == old(len(e.indexCovering))+1
 //@   ensures [kept] forall j int :: 0 <= j && j < old(len(e.indexCovering)) ==> e.indexCovering[j] == old(e.indexCovering)[j]
 //@   ensures [covers-ends] vcInside(first.id, e.indexCovering[len(e.indexCovering)-1]) && vcInside(last.id, e.indexCovering[len(e.indexCovering)-1])
+
+// ---------------------------------------------------------------- the priority queue: ordered by the distance type's own order
+
+// Entries are compared with the ordering of the distance abstraction (minimum distances ascend, maximum distances
+// descend): never with a raw comparison of chord angles, which would order furthest-edge queries backwards.
+//@ func (q queryPQ) Less(i, j int) bool
+//@   requires 0 <= i && i < len(q) && 0 <= j && j < len(q) && q[i] != nil && q[j] != nil && q[i].distance != nil
+//@   ensures [by-distance-order] result == q[i].distance.less(q[j].distance)
+
+//@ func (q queryPQ) Swap(i, j int)
+//@   requires 0 <= i && i < len(q) && 0 <= j && j < len(q)
+//@   modifies q[*]
+//@   ensures [swapped] q[i] == old(q[j]) && q[j] == old(q[i])
+//@   ensures [others-kept] forall k int :: 0 <= k && k < len(q) && k != i && k != j ==> q[k] == vcPreElem(q, k)
+
+//@ func (q queryPQ) Len() int
+//@   ensures result == len(q)
+
+//@ func (q *queryPQ) Pop() any
+//@   requires q != nil && len(*q) >= 1
+//@   modifies *q
+//@   ensures [shrinks] len(*q) == old(len(*q))-1
+//@   ensures [last] vcTypeIs[*queryQueueEntry](result) && result.(*queryQueueEntry) == vcPreElem(old(*q), old(len(*q))-1)
